@@ -80,7 +80,7 @@ def units(tier):
 def space(tier):
     return {'bound': "chains of length <= 3; full spelling product for length <= 2; length 3: "
                      + ("<= 1 non-default spelling" if tier == 'quick' else "full spelling product")
-                     + f"; {len(JOIN)} joiners x {len(CFGS)} configurations; bare-quarter clause over 4 quarters x 4 halves x 5 contexts",
+                     + f"; {len(JOIN)} joiners x {len(CFGS)} configurations; bare-quarter clause over 4 quarters x 4 halves x 5 contexts + every chain of 2-3 bare quarters after a half x 4 joiners",
             'caps_hit': []}
 
 
@@ -162,6 +162,17 @@ def bare_cases():
                 for hs in (SP[h][0], SP[h][1], SP[h][2]):
                     for gap in ('', ' '):
                         out.append((f"{hs}{gap}{q}", clean, CANON[h] + CANON[q], True, 'after_half'))
+    # a half followed by a chain of two or three bare quarters, in every order
+    for h in HALVES:
+        for hs in (SP[h][0], SP[h][1], SP[h][2]):
+            for L in (2, 3):
+                for qs in itertools.product(QUARTERS, repeat=L):
+                    for gap in ('', ' ', ' of ', ' of the '):
+                        if L == 3 and gap == ' of the ' and hs != SP[h][0]:
+                            continue
+                        text = hs + ''.join(gap + q for q in qs)
+                        for clean in (False, True):
+                            out.append((text, clean, CANON[h] + ''.join(CANON[q] for q in qs), True, 'after_half_chain'))
     return out
 
 
@@ -191,6 +202,11 @@ def judge_bare(acc, text, clean, exp_pp, is_aliquot, ctx):
     if ctx in ('alone', 'prose') and bool(qqs) != is_aliquot:
         acc.violation('bare_quarter_qqs', f"C07:bare_quarter_qqs:{key}", case, got=qqs)
         return
+    if ctx == 'after_half_chain':
+        canon_qqs = list(_p.Tract(exp_pp, parse_qq=True, config=cfg).qqs)
+        if qqs != canon_qqs:
+            acc.violation('bare_quarter_chain_qqs', f"C07:bare_quarter_chain_qqs:{key}", case, got=qqs, exp=canon_qqs)
+            return
     acc.guard('bare_' + ctx + ('_clean' if clean else ''))
 
 
@@ -228,7 +244,7 @@ def replay(case):
 def guards(info):
     g = info['guards']
     out = []
-    for name in ('normalised', 'bare_alone', 'bare_alone_clean', 'bare_after_half', 'bare_after_quarter', 'bare_prose_clean'):
+    for name in ('normalised', 'bare_alone', 'bare_alone_clean', 'bare_after_half', 'bare_after_quarter', 'bare_prose_clean', 'bare_after_half_chain'):
         if not g.get(name):
             out.append(f"never observed: {name}")
     return out
